@@ -202,7 +202,7 @@ func (m *gatherModel) Apply(ev string) {
 		if c := m.curCycle(); c != nil && !c.completed {
 			c.cancelled = true
 		}
-		if err := a.Close(); err != nil {
+		if err := a.Close(); err != nil && !m.cfg.CloseErr {
 			m.problem("", "Close returned %v", err)
 		}
 		m.closed = true
@@ -422,6 +422,7 @@ func checkC09(c *runCtx) {
 		{"host", gatherCfg{Ifaces: two, NetTypes: []string{"udp4"}, CandTypes: []string{"host"}, Depth: depth}},
 		{"srflx", gatherCfg{Ifaces: gIfacesBasic, NetTypes: []string{"udp4"}, CandTypes: []string{"srflx"}, URLs: []string{stunURL}, Depth: depth}},
 		{"relay over UDP", gatherCfg{Ifaces: gIfacesBasic, NetTypes: []string{"udp4"}, CandTypes: []string{"relay"}, URLs: []string{turnURL}, Depth: depth}},
+		{"relay over UDP, every Close reports an error", gatherCfg{Ifaces: gIfacesBasic, NetTypes: []string{"udp4"}, CandTypes: []string{"host", "relay"}, URLs: []string{turnURL}, Depth: depth - 1, CloseErr: true}},
 		{"host via UDPMux", gatherCfg{Ifaces: gIfacesBasic, NetTypes: []string{"udp4"}, CandTypes: []string{"host"}, UDPMux: "10.0.0.1:7000", Depth: depth}},
 		{"host + srflx + relay, started agent (Failed reachable)", gatherCfg{Ifaces: gIfacesBasic, NetTypes: []string{"udp4"}, CandTypes: []string{"host", "srflx", "relay"}, URLs: []string{stunURL, turnURL}, Depth: depth - 1, Start: true}},
 	}
